@@ -13,14 +13,25 @@
  * Case lines:
  *   mode <seq|thr|vs>
  *   logger sync | logger async <capacity>
+ *   logger inits <console level> <file level> | logger initc <console level> <file level>
+ *       the library's own entry points: muggle_log_simple_init / muggle_log_complicated_init on the default
+ *       logger, calls through the MUGGLE_LOG_DEFAULT macro; the h lines name the handlers these create
+ *       (console; rotating file "log/<process>.log" relative to the working directory / time-rotating file)
  *   clock <sec> <nsec>
- *   h <cap|file|console|conplain|rot|trot|rots|trots> <level> <simple|complicated|raw>
+ *   h <cap|file|filea|filerel|filenm|console|conplain|rot|rotrel|trot|rots|trots> <level> <simple|complicated|raw|initsimple>
+ *       filea   = plain file handler opened with mode "ab" on a file that already has a line
+ *       filerel = plain file handler given a path relative to the working directory
+ *       filenm  = plain file handler with muggle_log_handler_set_mutex(false) (single-threaded use)
+ *       console / conplain in modes thr / vs: what the handler hands to fwrite on stdout / stderr is captured
+ *                 (same two-part writes as the file streams), no file descriptor is redirected
  *       rots  = size-rotating handler with a small max_bytes (many rotations during the run)
  *       trots = time-rotating handler, unit SEC mod 2 (rotates as the per-call clock advances)
  *       their stream = all backup / period files in chronological order + the live file
  *   tick <sec>                                  (thr, vs: call k of every thread happens at clock + k*tick)
  *   setlevel <handler index> <level>            (muggle_log_handler_set_level between two calls; any level)
  *   failmalloc <k>                              (seq: k-th tracked malloc of the next log fails)
+ *   fill64 <v>                                  (seq: blocks malloc'ed by the log calls are pre-filled with the repeating
+ *                                                 64-bit word v: what the code does not initialise reads as v)
  *   log <level> <srcline> <s|ds|lit> <hex text> (seq)
  *   hold <level> <srcline> <s|ds|lit> <hex>     (seq, async: like log; the writer thread stops inside
  *                                                 handler 0's write of this message until "release")
@@ -48,6 +59,8 @@
 #include "muggle/c/log/log_file_rotate_handler.h"
 #include "muggle/c/log/log_file_time_rot_handler.h"
 #include "muggle/c/sync/sync_obj.h"
+#include "muggle/c/os/os.h"
+#include "muggle/c/os/path.h"
 
 #define LIMIT MUGGLE_LOG_MSG_MAX_LEN
 #define SRC_FILE "/verif/harness/drivers/c16_src.c"
@@ -60,6 +73,7 @@ void c16_acct_begin(void);
 void c16_acct_end(void);
 int c16_acct_live(void);
 void c16_acct_fail_at(int k);
+void c16_acct_fill(int on, unsigned long long v);
 
 /* ---------------- interposed environment ---------------- */
 static long long g_sec = 1700000000LL;
@@ -113,9 +127,33 @@ static int closed_handler_of_fp(FILE *fp)
 	for (int i = 0; i < g_nclosed; i++) if (g_closed[i] == fp) return g_closed_h[i];
 	return -1;
 }
+/* console handlers in the threaded modes: bytes handed to fwrite on stdout / stderr are captured here */
+static int g_con_capture;
+static unsigned char *g_con_buf[2];
+static size_t g_con_len[2];
+#define CON_CAP (8u << 20)
+static void con_put(int st, const void *p, size_t k)
+{
+	size_t at = __atomic_fetch_add(&g_con_len[st], k, __ATOMIC_SEQ_CST);
+	if (at + k <= CON_CAP) memcpy(g_con_buf[st] + at, p, k);
+}
 size_t __real_fwrite(const void *p, size_t sz, size_t n, FILE *fp);
 size_t __wrap_fwrite(const void *p, size_t sz, size_t n, FILE *fp)
 {
+	if (g_con_capture && (fp == stdout || fp == stderr)) {
+		int st = fp == stderr, h = handler_of_fp(fp);
+		size_t total = sz * n;
+		/* the escape sequences of a coloured line are short single writes; the line itself goes out in two parts */
+		if (g_chunk_fwrite && total >= 12 && h >= 0) {
+			size_t a = total / 2;
+			if (vs_active()) vs_note("fw1 %d", h);
+			con_put(st, p, a);
+			if (vs_active()) vs_yield_point("fwrite"); else sched_yield();
+			if (vs_active()) vs_note("fw2 %d", h);
+			con_put(st, (const char *)p + a, total - a);
+		} else con_put(st, p, total);
+		return n;
+	}
 	if (g_chunk_fwrite && sz == 1 && n >= 2) {
 		int hc = vs_active() ? closed_handler_of_fp(fp) : -1;
 		if (hc >= 0) {
@@ -265,11 +303,15 @@ typedef struct { int kind; int a, b; char tmpl[8]; unsigned char *text; size_t t
 enum { OP_LOG = 1, OP_FAIL = 2, OP_SETLEVEL = 3, OP_HOLD = 4, OP_RELEASE = 5 };
 
 static int is_async, capacity;
+static int g_init_logger, g_init_lc, g_init_lf;     /* 0 none, 1 muggle_log_simple_init, 2 muggle_log_complicated_init */
+#define PRE_EXISTING "PRE-EXISTING LINE\n"
 static hspec_t hs[MAXH];
 static int nh;
 static op_t ops[MAXOPS];
 static int nops;
 static int th_n, th_msgs, th_paylen, lossy;
+static int g_fill_on;
+static unsigned long long g_fill;
 static char sched_spec[8192];
 static char scratch[512];
 
@@ -293,9 +335,9 @@ static int handler_of_fp(FILE *fp)
 	if (!fp) return -1;
 	for (int i = 0; i < nh; i++) {
 		if (!h_ok[i]) continue;
-		if (strcmp(hs[i].kind, "file") == 0 && H[i].file.fp == fp) return i;
-		if (strncmp(hs[i].kind, "rot", 3) == 0 && H[i].rot.fp == fp) return i;
-		if (strncmp(hs[i].kind, "trot", 4) == 0 && H[i].trot.fp == fp) return i;
+		if (strncmp(hs[i].kind, "file", 4) == 0 && !g_init_logger && H[i].file.fp == fp) return i;
+		if (strncmp(hs[i].kind, "rot", 3) == 0 && !g_init_logger && H[i].rot.fp == fp) return i;
+		if (strncmp(hs[i].kind, "trot", 4) == 0 && !g_init_logger && H[i].trot.fp == fp) return i;
 	}
 	for (int i = 0; i < g_nfp; i++) if (g_fp[i] == fp) return g_fp_h[i];   /* stdout / stderr of a console handler */
 	return -1;
@@ -325,9 +367,10 @@ static void case_begin(void)
 	snprintf(scratch, sizeof(scratch), "%s/p%d", e ? e : "/verif/build/C16/scratch", (int)getpid());
 	mkdir(e ? e : "/verif/build/C16/scratch", 0777);
 	mkdir(scratch, 0777);
-	g_mode = M_SEQ; is_async = 0; capacity = 0; nh = 0;
+	g_mode = M_SEQ; is_async = 0; capacity = 0; nh = 0; g_init_logger = 0; g_con_capture = 0;
+	if (chdir(scratch) != 0) { }
 	for (int i = 0; i < nops; i++) { if (ops[i].text) __real_free(ops[i].text); ops[i].text = NULL; }
-	nops = 0; th_n = 0; th_msgs = 0; th_paylen = 0; lossy = 0; g_tick = 0; g_nclosed = 0;
+	nops = 0; th_n = 0; th_msgs = 0; th_paylen = 0; lossy = 0; g_tick = 0; g_nclosed = 0; g_fill_on = 0; g_fill = 0;
 	{	/* empty the scratch directory of this process */
 		char cmd[700];
 		snprintf(cmd, sizeof(cmd), "rm -f %s/*", scratch);
@@ -345,9 +388,11 @@ static void case_line(char *line)
 		if (sscanf(line, "%*s %63s", a) == 1)
 			g_mode = strcmp(a, "thr") == 0 ? M_THR : strcmp(a, "vs") == 0 ? M_VS : M_SEQ;
 	} else if (strcmp(op, "logger") == 0) {
-		a[0] = 0; capacity = 0;
-		sscanf(line, "%*s %63s %d", a, &capacity);
+		a[0] = 0; capacity = 0; g_init_lf = -1;
+		sscanf(line, "%*s %63s %d %d", a, &capacity, &g_init_lf);
 		is_async = strcmp(a, "async") == 0;
+		g_init_logger = strcmp(a, "inits") == 0 ? 1 : strcmp(a, "initc") == 0 ? 2 : 0;
+		g_init_lc = capacity;
 	} else if (strcmp(op, "clock") == 0) {
 		sscanf(line, "%*s %lld %ld", &g_sec, &g_nsec);
 	} else if (strcmp(op, "h") == 0) {
@@ -355,7 +400,8 @@ static void case_line(char *line)
 		int lv;
 		if (nh < MAXH && sscanf(line, "%*s %11s %d %31s", k, &lv, f) == 3) {
 			snprintf(hs[nh].kind, sizeof(hs[nh].kind), "%s", k);
-			hs[nh].level = lv; hs[nh].fmt = strcmp(f, "complicated") == 0 ? 1 : strcmp(f, "raw") == 0 ? 2 : 0;
+			hs[nh].level = lv; hs[nh].fmt = strcmp(f, "complicated") == 0 ? 1 : strcmp(f, "raw") == 0 ? 2 :
+				strcmp(f, "initsimple") == 0 ? 3 : 0;
 			nh++;
 		}
 	} else if (strcmp(op, "setlevel") == 0 && nops < MAXOPS) {
@@ -382,6 +428,8 @@ static void case_line(char *line)
 		sscanf(line, "%*s %d", &g_tick);
 	} else if (strcmp(op, "lossy") == 0) {
 		lossy = 1;
+	} else if (strcmp(op, "fill64") == 0) {
+		if (sscanf(line, "%*s %llu", &g_fill) == 1) g_fill_on = 1;
 	} else if (strcmp(op, "sched") == 0) {
 		snprintf(sched_spec, sizeof(sched_spec), "%s", line + 6);
 	}
@@ -417,6 +465,8 @@ static void con_end(void)
 	con_active = 0;
 }
 
+static char g_init_path[600];
+static void init_oracles(muggle_log_fmt_t *f);
 static int setup(void)
 {
 	int have_console = 0;
@@ -426,6 +476,44 @@ static int setup(void)
 	memset(h_added, 0, sizeof(h_added));
 	for (int i = 0; i < nh; i++) if (strncmp(hs[i].kind, "con", 3) == 0) have_console = 1;
 	c16_acct_begin();
+	if (g_init_logger) {
+		/* the default logger is a static object of the library: start every case from its initial state */
+		char exe[600], base[300], p2[700];
+		struct tm t; time_t s0 = (time_t)g_sec;
+		logger = muggle_logger_default();
+		muggle_sync_logger_init((muggle_sync_logger_t *)logger);
+		for (int i = 0; i < nh; i++) {
+			snprintf(h_path[i], sizeof(h_path[i]), "%s/h%d.log", scratch, i);
+			if (strcmp(hs[i].kind, "rotrel") == 0) {
+				/* muggle_log_simple_init: "log/<process name>.log" relative to the working directory */
+				exe[0] = 0; base[0] = 0;
+				muggle_os_process_path(exe, sizeof(exe));
+				muggle_path_basename(exe, base, sizeof(base));
+				snprintf(h_path[i], sizeof(h_path[i]), "%s/log/%s.log", scratch, base);
+				remove(h_path[i]);
+			} else if (strcmp(hs[i].kind, "trot") == 0) {
+				gmtime_r(&s0, &t);
+				snprintf(p2, sizeof(p2), "%s.%d%02d%02d", h_path[i], t.tm_year + 1900, t.tm_mon + 1, t.tm_mday);
+				remove(p2);
+				snprintf(g_init_path, sizeof(g_init_path), "%s", h_path[i]);
+				snprintf(h_path[i], sizeof(h_path[i]), "%s", p2);
+			}
+		}
+		int rc = g_init_logger == 1 ? muggle_log_simple_init(g_init_lc, g_init_lf)
+		                            : muggle_log_complicated_init(g_init_lc, g_init_lf, g_init_path);
+		if (rc != 0) { printf("init fail\n"); return -1; }
+		for (int i = 0; i < nh; i++) {
+			h_ok[i] = 1; h_added[i] = i < logger->cnt;
+			if (strncmp(hs[i].kind, "con", 3) == 0) { reg_fp(stdout, i); reg_fp(stderr, i); }
+			printf("add %d %s\n", i, h_added[i] ? "ok" : "refused");
+		}
+		printf("initcnt %d\n", logger->cnt);
+		/* the formatter these entry points install (private to log.c): its unbounded output per call */
+		if (logger->cnt > 0) init_oracles(muggle_log_handler_get_fmt(logger->handlers[0]));
+		fflush(stdout);
+		if (have_console) con_begin();
+		return 0;
+	}
 	if (is_async) {
 		g_join_word = 0;
 		if (g_mode == M_VS) g_capture_create = 1;
@@ -449,7 +537,19 @@ static int setup(void)
 			H[i].cap.len = 0; H[i].cap.nret = 0;
 		} else if (strcmp(hs[i].kind, "file") == 0) {
 			rc = muggle_log_file_handler_init(&H[i].file, h_path[i], "wb");
-
+		} else if (strcmp(hs[i].kind, "filea") == 0) {
+			/* append mode: what the file already holds stays */
+			FILE *pf = __real_fopen(h_path[i], "wb");
+			if (pf) { fputs(PRE_EXISTING, pf); __real_fclose(pf); }
+			rc = muggle_log_file_handler_init(&H[i].file, h_path[i], "ab");
+		} else if (strcmp(hs[i].kind, "filerel") == 0) {
+			/* relative path: resolved against the working directory (= the scratch directory) */
+			char rel[64];
+			snprintf(rel, sizeof(rel), "h%d.log", i);
+			rc = muggle_log_file_handler_init(&H[i].file, rel, "wb");
+		} else if (strcmp(hs[i].kind, "filenm") == 0) {
+			rc = muggle_log_file_handler_init(&H[i].file, h_path[i], "wb");
+			if (rc == 0) muggle_log_handler_set_mutex(&H[i].base, false);
 		} else if (strcmp(hs[i].kind, "console") == 0 || strcmp(hs[i].kind, "conplain") == 0) {
 			rc = muggle_log_console_handler_init(&H[i].con, strcmp(hs[i].kind, "console") == 0);
 			reg_fp(stdout, i); reg_fp(stderr, i);
@@ -481,7 +581,14 @@ static int setup(void)
 		printf("add %d %s\n", i, ar == 0 ? "ok" : "refused");
 	}
 	fflush(stdout);
-	if (have_console) con_begin();
+	if (have_console && g_mode == M_SEQ) con_begin();
+	if (have_console && g_mode != M_SEQ) {
+		for (int k = 0; k < 2; k++) {
+			if (!g_con_buf[k]) g_con_buf[k] = (unsigned char *)__real_malloc(CON_CAP);
+			g_con_len[k] = 0;
+		}
+		g_con_capture = 1;
+	}
 	return 0;
 }
 
@@ -489,6 +596,12 @@ static int destroyed;
 static void teardown_handlers(void)
 {
 	con_end();
+	g_con_capture = 0;
+	if (g_init_logger) {
+		for (int k = 0; k < logger->cnt; k++) logger->handlers[k]->destroy(logger->handlers[k]);
+		muggle_sync_logger_init((muggle_sync_logger_t *)logger);
+		return;
+	}
 	for (int i = 0; i < nh; i++)
 		if (h_ok[i]) H[i].base.destroy(&H[i].base);
 }
@@ -560,6 +673,9 @@ static void dump_outputs(void)
 			}
 			__real_free(H[i].cap.buf);
 			H[i].cap.buf = NULL;
+		} else if (strncmp(hs[i].kind, "con", 3) == 0 && g_mode != M_SEQ) {
+			printf("out %d ", i); hexout(g_con_buf[0], g_con_len[0] < CON_CAP ? g_con_len[0] : CON_CAP); printf("\n");
+			printf("err %d ", i); hexout(g_con_buf[1], g_con_len[1] < CON_CAP ? g_con_len[1] : CON_CAP); printf("\n");
 		} else if (strncmp(hs[i].kind, "con", 3) == 0) {
 			dump_file("out", i, con_out_path);
 			dump_file("err", i, con_err_path);
@@ -599,8 +715,42 @@ static void oracle(int idx, int level, int srcline, const unsigned char *text, s
 	printf("\n");
 }
 
+/* the library's logging macro, at the canonical source location of the drivers */
+static void c16_case(int level, const unsigned char *text)
+{
+#line 77 "/verif/harness/drivers/c16_src.c"
+	MUGGLE_LOG_DEFAULT(level, "%s", (const char *)text);
+#line 640 "c16_driver.c"
+}
+
+/* init loggers: the formatter installed by muggle_log_*_init, on every call of the case */
+static void init_oracles(muggle_log_fmt_t *f)
+{
+	static char big[BIG + 4096];
+	static char payload[LIMIT];
+	int idx = 0;
+	for (int i = 0; i < nops; i++) {
+		op_t *o = &ops[i];
+		if (o->kind != OP_LOG) continue;
+		size_t pl = o->tlen < LIMIT - 1 ? o->tlen : LIMIT - 1;
+		memcpy(payload, o->text, pl); payload[pl] = 0;
+		muggle_log_msg_t m;
+		memset(&m, 0, sizeof(m));
+		m.level = o->a;
+		m.ts.tv_sec = (time_t)g_sec; m.ts.tv_nsec = g_nsec;
+		m.tid = (muggle_thread_readable_id)g_ltid;
+		m.src_loc.file = SRC_FILE; m.src_loc.line = 77; m.src_loc.func = SRC_FUNC;
+		m.payload = payload;
+		int n = f ? f->fmt_func(&m, big, sizeof(big)) : -1;
+		printf("icall %d %d init=", idx++, o->a);
+		hexout((unsigned char *)big, n < 0 ? 0 : (size_t)n);
+		printf("\n");
+	}
+}
+
 static void do_log(int level, int srcline, const char *tmpl, const unsigned char *text)
 {
+	if (g_init_logger) { (void)srcline; (void)tmpl; c16_case(level, text); return; }
 	muggle_log_src_loc_t loc = { SRC_FILE, (unsigned)srcline, SRC_FUNC };
 	if (strcmp(tmpl, "ds") == 0) logger->log(logger, level, &loc, "%d|%s", srcline, (const char *)text);
 	else if (strcmp(tmpl, "lit") == 0) logger->log(logger, level, &loc, (const char *)text);
@@ -669,6 +819,7 @@ static void run_seq(void)
 {
 	g_base_live = c16_acct_live();
 	g_gate_armed = g_gate_entered = g_gate_open = g_held = 0;
+	c16_acct_fill(g_fill_on, g_fill);
 	for (int i = 0; i < nops; i++) {
 		op_t *o = &ops[i];
 		if (o->kind == OP_SETLEVEL) {
@@ -699,6 +850,7 @@ static void run_seq(void)
 		}
 	}
 	do_release();
+	c16_acct_fill(0, 0);
 	logger->destroy(logger);
 	destroyed = 1;
 }
@@ -816,7 +968,7 @@ static void case_end(void)
 			printf("F destroyed=%d live=%d\n", destroyed, c16_acct_live());
 			for (int i = 0; i < nh; i++) {
 				if (!h_ok[i]) continue;
-				if (strcmp(hs[i].kind, "file") == 0 && H[i].file.fp) fflush(H[i].file.fp);
+				if (strncmp(hs[i].kind, "file", 4) == 0 && H[i].file.fp) fflush(H[i].file.fp);
 				if (strncmp(hs[i].kind, "rot", 3) == 0 && H[i].rot.fp) fflush(H[i].rot.fp);
 				if (strncmp(hs[i].kind, "trot", 4) == 0 && H[i].trot.fp) fflush(H[i].trot.fp);
 			}
